@@ -308,10 +308,19 @@ class PrintrunWriter(BaseWriter):
         self._logger.info("Pending operations completed")
 
     def _wait_for_acknowledgment(self) -> None:
-        """Wait for an acknowledgment from the device."""
+        """Wait for an acknowledgment from the device.
+
+        Raises:
+            DeviceConnectionError: If nobody is listening to the device
+        """
 
         self._logger.info("Wait for acknowledgment")
-        self._ack_event.wait()
+
+        while not self._ack_event.wait(timeout=POLLING_INTERVAL):
+            listener = self._device.read_thread
+
+            if listener is None or not listener.is_alive():
+                raise DeviceConnectionError("Connection lost")
 
     def _on_device_online(self) -> None:
         """Callback to handle device online event."""
